@@ -157,7 +157,7 @@ def run_explicit(case):
 
 
 def shards(tier):
-    n = 500 if tier == 'quick' else 4000
+    n = 500 if tier == 'quick' else 30000
     return [{'name': 'prefixes-%d' % i, 'kind': 'hyp', 'examples': n, 'hypothesis': True,
              'steps': 14 if tier == 'quick' else 30} for i in range(8 if tier == 'quick' else 16)]
 
